@@ -1283,6 +1283,9 @@ func (c *Conn) writeResponse(code int, enhCode EnhancedCode, text ...string) {
 
 	// transform each single line with \n, into separate lines
 	text = strings.Split(strings.Join(text, "\n"), "\n")
+	for i, line := range text {
+		text[i] = sanitizeReplyLine(line)
+	}
 
 	lastLineIndex := len(text) - 1
 	for i := 0; i < lastLineIndex; i++ {
@@ -1293,6 +1296,29 @@ func (c *Conn) writeResponse(code int, enhCode EnhancedCode, text ...string) {
 	} else {
 		c.text.PrintfLine("%d %v.%v.%v %v", code, enhCode[0], enhCode[1], enhCode[2], text[lastLineIndex])
 	}
+}
+
+// sanitizeReplyLine makes sure a line of reply text cannot break the reply
+// framing: the text may echo what the client sent or carry a backend's error
+// message, but on the wire it must not contain control characters (RFC 5321
+// section 4.2). A CR left over from a CRLF line separator is dropped, any other
+// control character is replaced.
+func sanitizeReplyLine(line string) string {
+	line = strings.TrimSuffix(line, "\r")
+	isCtl := func(ch byte) bool { return (ch < ' ' && ch != '\t') || ch == 0x7f }
+	for i := 0; i < len(line); i++ {
+		if !isCtl(line[i]) {
+			continue
+		}
+		b := []byte(line)
+		for j := i; j < len(b); j++ {
+			if isCtl(b[j]) {
+				b[j] = '?'
+			}
+		}
+		return string(b)
+	}
+	return line
 }
 
 func (c *Conn) writeError(code int, enhCode EnhancedCode, err error) {
